@@ -160,6 +160,9 @@ static void runSession(const Session& S, vh::Rng* rng, const std::vector<Op>* op
                     case 3: case 4: case 5: op.sched = loS + rng->range(0.001, 0.8); break;
                     default: op.sched = Inf;
                 }
+                // an infinite report time is only legal here if something else bounds the call
+                if (!std::isfinite(op.report) && !std::isfinite(op.sched) && !S.hasFinal && !S.retEvery && S.stepLimit == 0)
+                    op.report = lo + dt;
                 op.viaStepBy = rng->below(8) == 0 && std::isfinite(op.report) && std::isfinite(op.sched);
                 if (op.viaStepBy) {   // stepBy(interval, limit) == stepTo(t+interval, t+limit): log what stepBy will compute
                     op.iv = op.report - tNow; op.lim = op.sched - tNow;
@@ -252,21 +255,23 @@ static void runSession(const Session& S, vh::Rng* rng, const std::vector<Op>* op
     double worstPending = 0, worstMono = 0, worstAdv = 0, worstExact = 0, worstWin = 0, worstEos = 0, worstRefuse = 0;
     int nEos = 0; bool eosSeen = false;
     double prevTime = S.t0;
+    if (isCPodes) vh::O("cp").i((long long)log.size()).emit();
     for (auto& c : log) {
         if (c.op.kind == 'r') {
-            vh::O("r").d(c.time).d(c.tAdv).i(c.interp).i(c.over).emit();
+            if (!isCPodes) vh::O("r").d(c.time).d(c.tAdv).i(c.interp).i(c.over).emit();
             worstMono = std::max(worstMono, prevTime - c.time);
             prevTime = c.time;
             continue;
         }
         if (c.exc) {
-            vh::O("c").s("EXC").emit();
+            if (!isCPodes) vh::O("c").s("EXC").emit();
             // an exception is legal only as the refusal after EndOfSimulation / termination
             if (!(eosSeen || c.over)) worstRefuse = 1;
             vh::D(nm + ".refused");
             continue;
         }
-        vh::O("c").i(c.status).d(c.time).d(c.tAdv).i(c.interp).i(c.over).emit();
+        if (!isCPodes) vh::O("c").i(c.status).d(c.time).d(c.tAdv).i(c.interp).i(c.over).emit();
+        else std::printf("# cp %d %.17g %.17g %d %d\n", c.status, c.time, c.tAdv, (int)c.interp, (int)c.over);
         vh::D(nm + ".status" + std::to_string(c.status) + (c.interp ? "i" : ""));
         if (eosSeen) worstRefuse = 1;    // a call after EndOfSimulation returned normally
         const double pend = std::min(c.op.report, std::min(c.op.sched, fin));
